@@ -110,7 +110,7 @@ pub async fn scenario_c07() {
 	if resp_b == resp_a {
 		resp_b = GRID[(GRID.iter().position(|g| *g == resp_a).unwrap() + 1 + rt::draw("resp_shift", 5) as usize) % GRID.len()];
 	}
-	let entry = *rt::pick("entry", &[Entry::Tower, Entry::LowLevel]);
+	let entry = *rt::pick("entry", &[Entry::Tower, Entry::LowLevel, Entry::Default]);
 	let clog = rt::chance("clog", 1, 4);
 	let frag = if clog { Frag { short: false, latency_ms: 0, cap: 64 } } else if rt::chance("frag", 1, 3) { Frag { short: true, latency_ms: 2, cap: 0 } } else { Frag::default() };
 	let req_limit = if clog { req_limit.min(1000) } else { req_limit };
@@ -133,6 +133,7 @@ pub async fn scenario_c07() {
 	let mut nontrivial = false;
 	for (wi, resp) in [resp_a, resp_b].into_iter().enumerate() {
 		let mut world = World::new(SrvCfg { entry, frag, max_req: req_limit, max_resp: resp, buf_cap: if clog { 1 } else { 1024 }, ..Default::default() });
+		world.start().await;
 		// --- WebSocket: everything pipelined on one connection, then a sentinel ---
 		let mut list: Vec<Vec<u8>> = msgs.iter().map(|m| m.1.clone()).collect();
 		list.push(len_call(999, 60));
@@ -251,7 +252,7 @@ pub async fn scenario_c08() {
 	let resp_limit = *rt::pick("resp_limit", &[256u32, 1000, 4096, 65536]);
 	let req_a = *rt::pick("req_a", &[1000u32, 4096, 65536]);
 	let req_b = if req_a == 65536 { 4096 } else { 65536 };
-	let entry = *rt::pick("entry", &[Entry::Tower, Entry::LowLevel]);
+	let entry = *rt::pick("entry", &[Entry::Tower, Entry::LowLevel, Entry::Default]);
 	let frag = if rt::chance("frag", 1, 3) { Frag { short: true, latency_ms: 2, cap: 0 } } else { Frag::default() };
 	let l = resp_limit as usize;
 	// single calls around the limit
@@ -307,6 +308,7 @@ pub async fn scenario_c08() {
 	let mut per_world: Vec<Vec<String>> = Vec::new();
 	for (wi, req) in [req_a, req_b].into_iter().enumerate() {
 		let mut world = World::new(SrvCfg { entry, frag, max_req: req, max_resp: resp_limit, ..Default::default() });
+		world.start().await;
 		let mut list: Vec<Vec<u8>> = singles.iter().map(|s| s.1.clone()).collect();
 		list.push(batch_text.clone().into_bytes());
 		list.push(len_call(999, 60));
